@@ -31,7 +31,9 @@ ASSUMPTIONS = [
     'measures the weights as <e_i,e_i> and checks that the Gram matrix of the unit vectors is diagonal '
     '(Coq: such list spaces and their products satisfy SpaceLaws)',
     'the executed (Q) instance uses a rational square root of relative accuracy 1e-12 for norms; the proved (R) '
-    'instance uses sqrt',
+    'instance uses sqrt (norms occur only in grad_lipschitz of QuadraticPerturb/Bregman and in the L2Norm leaf); '
+    'for value/gradient/derivative/is_linear of all trees Coq proves (model_transfer) that the Q run is the '
+    'rational restriction of the R model',
     'leaves and operators enter the all-trees theorems through explicit soundness premises; the premises are '
     'proved for L2NormSquared, L2Norm (x != 0), Constant/Zero, linear and quadratic forms (scaling, multiply), '
     'L1Norm (no zero entry), Huber, the four Kullback-Leibler functionals, MoreauEnvelope (given a minimising, '
@@ -45,6 +47,8 @@ ASSUMPTIONS = [
     'the subject of C05)',
 ]
 TRUSTED = [
+    'translate/functional_lipschitz.py (Python ast -> Gallina: grad_lipschitz / linear arguments of each __init__), '
+    'fail-closed; C09/GenTie.v proves the hand model uses exactly these formulas',
     'coq/C09/Model.v hand-written transcription of functional.py / default_functionals.py at /repo >= aef4c15, 7ebf769 (validated by the '
     'correspondence on every run)',
     'harness/c09.py tree generator and flattening of odl elements',
@@ -61,6 +65,12 @@ LEVEL_NOTE = ('Leaves with log/exp/prox (KL, Moreau envelope), group norms and N
               'only. Exact arithmetic; classical reals + funext axioms as printed by Print Assumptions.')
 TECHNIQUE = ('Coq proof by structural induction on a deep embedding of functional arithmetic over an abstract real '
              'inner-product space (Frechet calculus from std Reals) + in-Coq differential correspondence at Q')
+
+
+def translate():
+    """grad_lipschitz / linear formulas of every modelled class, regenerated from the current source"""
+    from translate import functional_lipschitz as T
+    return {'Gen/FunctionalLip.v': T.translate()}
 
 
 # ------------------------------------------------------------------ spaces
@@ -192,7 +202,12 @@ class OpNode(object):
 def gen_op(rng, S, depth=1):
     """Random operator with domain S (range may be another space)."""
     import odl
-    kinds = ['scal', 'mult', 'id', 'square', 'shift']
+    kinds = ['scal', 'mult', 'id', 'square', 'shift', 'usquare']
+    if not _FLOATS[0]:
+        kinds += ['recip']     # 1/x only in the exact correspondence (non-finite results are skipped there);
+        #                        the finite-difference oracles of the probes stay away from its poles
+    if depth > 0:
+        kinds += ['pwprod', 'pwprod']
     if S.kind in ('rn', 'rn1'):
         kinds += ['matrix', 'matrix']
     if depth > 0:
@@ -209,6 +224,19 @@ def gen_op(rng, S, depth=1):
         return OpNode(odl.IdentityOperator(S.sp), '(Oid %s)' % w, ['Identity'], S, S, True)
     if k == 'square':
         return OpNode(odl.PowerOperator(S.sp, 2), '(Osquare %s)' % w, ['Power2'], S, S, False)
+    if k == 'usquare':
+        return OpNode(odl.ufunc_ops.square(S.sp), '(Osquare %s)' % w, ['ufunc-square'], S, S, False)
+    if k == 'recip':
+        return OpNode(odl.ufunc_ops.reciprocal(S.sp), '(Orecip %s)' % w, ['ufunc-reciprocal'], S, S, False)
+    if k == 'pwprod':
+        A = gen_op(rng, S, 0)
+        while A.S2 is not S:
+            A = gen_op(rng, S, 0)
+        B = gen_op(rng, S, 0)
+        while B.S2 is not S:
+            B = gen_op(rng, S, 0)
+        return OpNode(odl.OperatorPointwiseProduct(A.py, B.py), '(Opw %s %s %s %s)' % (w, w, A.coq, B.coq),
+                      ['PointwiseProduct', A.desc, B.desc], S, S, False)
     if k == 'matrix':
         m = rng.randint(1, 3)
         S2 = SpaceInfo('rn', odl.rn(m))
@@ -393,6 +421,91 @@ KIND = {'FunctionalLeftScalarMult': 'KLeftScal', 'FunctionalRightScalarMult': 'K
         'FunctionalProduct': 'KProd', 'FunctionalQuotient': 'KQuot', 'BregmanDistance': 'KBregman'}
 
 
+def gen_finite_leaf(rng, S):
+    """a leaf with a finite grad_lipschitz"""
+    while True:
+        f = _gen_leaf(rng, S)
+        if math.isfinite(float(f.py.grad_lipschitz)):
+            return f
+
+
+CHAIN_OPS = ['RightScal', 'ov_mul', 'ov_div', 'RightScal', 'ov_mul', 'LeftScal', 'ov_rmul', 'ov_neg', 'Trans',
+             'ov_translated', 'ScalarSum', 'QuadPert', 'Bregman', 'Sum']
+
+
+def gen_chain(rng, S, vs):
+    import odl
+    F = odl.solvers
+    node = gen_finite_leaf(rng, S)
+    w = S.wq
+    r = rng.random()
+    if r < 0.15:      # L2NormSquared.convex_conj = 1/4 * L2NormSquared
+        node = Node(F.L2NormSquared(S.sp).convex_conj, '(Xlscal %s (1 # 4) (Xleaf %s (Ll2sq %s)))' % (w, w, w),
+                    ['L2NormSquared.convex_conj'], S)
+    elif r < 0.3:     # (L2NormSquared * a).convex_conj = L2NormSquared.convex_conj * (1/a)
+        a = rng.choice([2.0, 4.0, 0.5, -2.0, -0.25])
+        node = Node((F.L2NormSquared(S.sp) * a).convex_conj,
+                    '(Xmul %s (Xlscal %s (1 # 4) (Xleaf %s (Ll2sq %s))) %s)' % (w, w, w, w, C.q(1.0 / a)),
+                    ['(L2NormSquared*a).convex_conj', a], S)
+    for _ in range(rng.choice([2, 2, 3, 3, 4])):
+        k = rng.choice(CHAIN_OPS)
+        f = node
+        big = lambda: rng.choice([2.0, 3.0, -2.0, 1.5, 0.5, -0.5, 4.0, 0.25, -3.0])
+        if k == 'RightScal':
+            s = big()
+            node = Node(F.FunctionalRightScalarMult(f.py, s), '(Xrscal %s %s %s)' % (w, f.coq, C.q(s)), [k, f.desc, s], S)
+        elif k == 'ov_mul':
+            s = big()
+            node = Node(f.py * s, '(Xmul %s %s %s)' % (w, f.coq, C.q(s)), [k, f.desc, s], S)
+        elif k == 'ov_div':
+            s = rng.choice([2.0, 0.5, -0.25, 4.0, -2.0])
+            node = Node(f.py / s, '(Xdiv %s %s %s)' % (w, f.coq, C.q(s)), [k, f.desc, s], S)
+        elif k == 'LeftScal':
+            s = big()
+            node = Node(F.FunctionalLeftScalarMult(f.py, s), '(Xlscal %s %s %s)' % (w, C.q(s), f.coq), [k, s, f.desc], S)
+        elif k == 'ov_rmul':
+            s = big()
+            node = Node(s * f.py, '(Xrmul %s %s %s)' % (w, C.q(s), f.coq), [k, s, f.desc], S)
+        elif k == 'ov_neg':
+            node = Node(-f.py, '(Xneg %s %s)' % (w, f.coq), [k, f.desc], S)
+        elif k in ('Trans', 'ov_translated'):
+            t = vec(rng, S)
+            py = F.FunctionalTranslation(f.py, S.elem(t)) if k == 'Trans' else f.py.translated(S.elem(t))
+            node = Node(py, '(Xtranslated %s %s %s)' % (w, f.coq, C.qs(t)), [k, f.desc, t], S)
+        elif k == 'ScalarSum':
+            c = dy(rng)
+            node = Node(f.py + c, '(Xadds %s %s %s)' % (w, f.coq, C.q(c)), [k, f.desc, c], S)
+        elif k == 'QuadPert':
+            a, u, c = rng.choice([0.0, dy(rng)]), rng.choice([None, vec(rng, S)]), dy(rng)
+            py = F.FunctionalQuadraticPerturb(f.py, quadratic_coeff=a, linear_term=None if u is None else S.elem(u),
+                                              constant=c)
+            node = Node(py, '(Xqp %s %s %s %s %s)' % (w, f.coq, C.q(a), oqs(u), C.q(c)), [k, f.desc, a, u, c], S)
+        elif k == 'Bregman':
+            p, sg = vec(rng, S), vec(rng, S)
+            node = Node(f.py.bregman(S.elem(p), S.elem(sg)), '(Xbreg %s %s %s %s)' % (w, f.coq, C.qs(p), C.qs(sg)),
+                        [k, f.desc, p, sg], S)
+        else:
+            g = gen_finite_leaf(rng, S)
+            node = Node(f.py + g.py, '(Xsum %s %s %s)' % (w, f.coq, g.coq), [k, f.desc, g.desc], S)
+    return node
+
+
+def gen_nonlinear_comp(rng, S, vs):
+    """f o A with a nonlinear A (PowerOperator, ufunc square/reciprocal, pointwise products, shifts, compositions)"""
+    import odl
+    while True:
+        A = gen_op(rng, S, 1)
+        if not A.linear:
+            break
+    f = gen_tree(rng, A.S2, rng.choice([0, 1]), vs)
+    py = f.py * A.py if rng.random() < 0.5 else odl.solvers.FunctionalComp(f.py, A.py)
+    node = Node(py, '(Xcomp %s %s %s %s)' % (S.wq, A.S2.wq, f.coq, A.coq), ['Comp-nonlinear', f.desc, A.desc], S)
+    if rng.random() < 0.5:       # something on top, so that the composition is not the outermost object
+        s = rng.choice([2.0, -0.5, 3.0])
+        node = Node(s * node.py, '(Xrmul %s %s %s)' % (S.wq, C.q(s), node.coq), ['ov_rmul', s, node.desc], S)
+    return node
+
+
 def measure_variants():
     """No behaviour switch is left: the FunctionalQuadraticPerturb linear flag was repaired in /repo aef4c15
     and the model follows the repaired code."""
@@ -421,18 +534,28 @@ def case_of(rng, S, node, vs):
         x = [0.0] * S.n          # the origin: L2Norm's `norm == 0` branch, sign(0), Huber's inner zone
     f = node.py
     xe, de = S.elem(x), S.elem(d)
-    val = float(f(xe))
-    g = S.flat(f.gradient(xe))
-    dv = float(f.derivative(xe)(de))
+    x2 = vec(rng, S)
+    x2e = S.elem(x2)
+    with np.errstate(all='ignore'):
+        val = float(f(xe))
+        G = f.gradient               # ONE gradient operator object, evaluated at x, x2 and x again
+        g = S.flat(G(xe))
+        D = f.derivative(xe)         # ONE derivative object, evaluated at d and x2
+        dv = float(D(de))
+        g2 = S.flat(G(x2e))
+        g1b = S.flat(G(xe))
+        val2 = float(f(x2e))
+        dv2 = float(D(x2e))
     if S.flat(xe) != x or S.flat(de) != d:
         _MUTATED.append({'tree': node.desc, 'space': S.kind, 'x': x, 'x_after': S.flat(xe), 'd': d,
                          'd_after': S.flat(de)})
-    if not (math.isfinite(val) and all(math.isfinite(t) for t in g) and math.isfinite(dv)):
+    if not all(math.isfinite(t) for t in [val, dv, val2, dv2] + g + g2 + g1b):
         return None
-    term = ('(mkCase %s %s %s %s %s %s %s %s %s %s)'
+    term = ('(mkCase %s %s %s %s %s %s %s %s %s %s %s %s %s %s %s)'
             % (S.wq, node.coq, C.qs(x), C.qs(d), C.q(val), C.qs(g), C.q(dv), ilip(f.grad_lipschitz),
-               C.b(bool(f.is_linear)), KIND.get(type(f).__name__, 'KLeaf')))
-    desc = {'space': S.kind, 'weights': S.w, 'tree': node.desc, 'x': x, 'd': d}
+               C.b(bool(f.is_linear)), KIND.get(type(f).__name__, 'KLeaf'),
+               C.qs(x2), C.q(val2), C.qs(g2), C.qs(g1b), C.q(dv2)))
+    desc = {'space': S.kind, 'weights': S.w, 'tree': node.desc, 'x': x, 'd': d, 'x2': x2}
     key = (S.kind, repr(node.desc), tuple(x), tuple(d)) if (node.derived or node.desc[0] not in ('Constant', 'Zero')) else None
     return term, desc, key
 
@@ -450,13 +573,22 @@ def correspondence(rng, tier):
                 _add(cs, rng, S, gen_leaf(rng, S), vs)
             for k in DERIVED:
                 _add(cs, rng, S, gen_tree(rng, S, 1, vs, force=k), vs)
+    # (a2) chains of scalings / translations over leaves with a finite constant: (f*a)*b, ((f*a)*b)*c, mixed
+    #      with left scalings, translations, scalar sums, quadratic perturbation (merged scalars of the stored object)
+    for i in range(60 if quick else 500):
+        S = make_space(rng, rng.choice(SPACE_KINDS))
+        _add(cs, rng, S, gen_chain(rng, S, vs), vs)
+    # (a3) compositions with NONLINEAR operators (the gradient object is then evaluated at several points)
+    for i in range(40 if quick else 300):
+        S = make_space(rng, rng.choice(SPACE_KINDS))
+        _add(cs, rng, S, gen_nonlinear_comp(rng, S, vs), vs)
     # (b) random deeper trees
     ntree = 250 if quick else 2500
     for i in range(ntree):
         S = make_space(rng, rng.choice(SPACE_KINDS))
         depth = rng.choice([2, 2, 3] if quick else [2, 3, 3, 4])
         _add(cs, rng, S, gen_tree(rng, S, depth, vs), vs)
-    return [cs, sepsum_cases(rng, tier, vs), moreau_cases(rng, tier)]
+    return [cs, sepsum_cases(rng, tier, vs), moreau_cases(rng, tier), numgrad_cases(rng, tier, vs)]
 
 
 def sepsum_cases(rng, tier, vs):
@@ -471,17 +603,58 @@ def sepsum_cases(rng, tier, vs):
         x1, x2, d1, d2 = vec(rng, S1), vec(rng, S2), vec(rng, S1), vec(rng, S2)
         xe = f.domain.element([S1.elem(x1), S2.elem(x2)])
         de = f.domain.element([S1.elem(d1), S2.elem(d2)])
-        val = float(f(xe))
-        g = f.gradient(xe)
-        g1, g2 = S1.flat(g[0]), S2.flat(g[1])
-        dv = float(f.derivative(xe)(de))
-        if not (math.isfinite(val) and math.isfinite(dv) and all(math.isfinite(t) for t in g1 + g2)):
+        y1, y2 = vec(rng, S1), vec(rng, S2)
+        ye = f.domain.element([S1.elem(y1), S2.elem(y2)])
+        with np.errstate(all='ignore'):
+            val = float(f(xe))
+            G = f.gradient                       # one gradient object, two points
+            g = G(xe)
+            g1, g2 = S1.flat(g[0]), S2.flat(g[1])
+            dv = float(f.derivative(xe)(de))
+            gy = G(ye)
+            h1, h2 = S1.flat(gy[0]), S2.flat(gy[1])
+        if not (math.isfinite(val) and math.isfinite(dv) and all(math.isfinite(t) for t in g1 + g2 + h1 + h2)):
             continue
-        term = ('(mkCase2 %s %s %s %s %s %s %s %s %s %s %s %s %s %s)'
+        term = ('(mkCase2 %s %s %s %s %s %s %s %s %s %s %s %s %s %s %s %s %s %s)'
                 % (S1.wq, S2.wq, f1.coq, f2.coq, C.qs(x1), C.qs(x2), C.qs(d1), C.qs(d2), C.q(val),
-                   C.qs(g1), C.qs(g2), C.q(dv), ilip(f.grad_lipschitz), C.b(bool(f.is_linear))))
+                   C.qs(g1), C.qs(g2), C.q(dv), ilip(f.grad_lipschitz), C.b(bool(f.is_linear)),
+                   C.qs(y1), C.qs(y2), C.qs(h1), C.qs(h2)))
         cs.add(term, {'spaces': [S1.kind, S2.kind], 'f1': f1.desc, 'f2': f2.desc, 'x': [x1, x2], 'd': [d1, d2]},
                (S1.kind, S2.kind, repr(f1.desc), repr(f2.desc), tuple(x1), tuple(x2)))
+    return cs
+
+
+def numgrad_cases(rng, tier, vs):
+    """NumericalGradient(f, method, step) on 1-d tensor spaces (as the code computes it, weights ignored)"""
+    import odl
+    cs = C.CaseSet('numgrad', ['Base.Vec', 'C09.Model', 'C09.Corr'], 'check4', 'case4')
+    # variant switch of the open finding, measured on its replay input: [4.] = current code, [2.] = repaired
+    sp2 = odl.rn(1, weighting=2.0)
+    probe = odl.solvers.NumericalGradient(odl.solvers.L2NormSquared(sp2), method='central', step=1.0)([1.0])
+    riesz = C.b(abs(float(probe[0]) - 2.0) < 1e-9)
+    for kind in ('rn', 'rn1', 'rn_cw', 'rn_cw2', 'rn_aw', 'discr', 'discr_big'):
+        for m, mc in (('forward', 'NGForward'), ('backward', 'NGBackward'), ('central', 'NGCentral')):
+            for _ in range(2 if tier == 'quick' else 10):
+                S = make_space(rng, kind)
+                node = gen_tree(rng, S, rng.choice([0, 1, 2]), vs)
+                h = rng.choice([0.5, 0.25, 1.0, 2.0])
+                x = vec(rng, S)
+                x2 = vec(rng, S)
+                try:
+                    NG = odl.solvers.NumericalGradient(node.py, method=m, step=h)
+                    with np.errstate(all='ignore'):
+                        out = S.flat(NG(S.elem(x)))
+                        out2 = S.flat(NG(S.elem(x2)))
+                except Exception as e:
+                    _RAISED.append({'tree': ['NumericalGradient', node.desc], 'space': S.kind, 'weights': S.w,
+                                    'raised': '%s: %s' % (type(e).__name__, str(e)[:200])})
+                    continue
+                if not all(math.isfinite(t) for t in out + out2):
+                    continue
+                term = ('(mkCase4 %s %s %s %s %s %s %s %s %s)'
+                        % (riesz, S.wq, node.coq, mc, C.q(h), C.qs(x), C.qs(out), C.qs(x2), C.qs(out2)))
+                cs.add(term, {'space': S.kind, 'method': m, 'step': h, 'tree': node.desc, 'x': x},
+                       (S.kind, m, h, repr(node.desc), tuple(x)))
     return cs
 
 
@@ -498,11 +671,15 @@ def moreau_cases(rng, tier):
                 f = odl.solvers.MoreauEnvelope(base, sigma)
                 x, d = vec(rng, S), vec(rng, S)
                 xe, de = S.elem(x), S.elem(d)
-                g = S.flat(f.gradient(xe))
+                G = f.gradient                   # one gradient object, two points
+                g = S.flat(G(xe))
                 dv = float(f.derivative(xe)(de))
-                term = ('(mkCase3 %s (%s %s %s) %s %s %s %s %s %s)'
+                x2 = vec(rng, S)
+                g2 = S.flat(G(S.elem(x2)))
+                term = ('(mkCase3 %s (%s %s %s) %s %s %s %s %s %s %s %s)'
                         % (S.wq, 'Lmoreau_l2sq' if which == 'l2sq' else 'Lmoreau_l1', S.wq, C.q(sigma),
-                           C.qs(x), C.qs(d), C.qs(g), C.q(dv), ilip(f.grad_lipschitz), C.b(bool(f.is_linear))))
+                           C.qs(x), C.qs(d), C.qs(g), C.q(dv), ilip(f.grad_lipschitz), C.b(bool(f.is_linear)),
+                           C.qs(x2), C.qs(g2)))
                 cs.add(term, {'space': S.kind, 'functional': which, 'sigma': sigma, 'x': x, 'd': d},
                        (S.kind, which, sigma, tuple(x), tuple(d)))
     return cs
@@ -696,6 +873,45 @@ def _run_probe(name, rng, odl, F):
             ok, key, det = False, 'tree-raises-%s' % top, {'raised': '%s: %s' % (type(e).__name__, str(e)[:200])}
         det.update({'tree': node.desc, 'x': x, 'd': d, 'space': repr(S.sp)})
         return ok, key, 'random tree (top %s) on %s: gradient vs directional derivative; Lipschitz ratio' % (top, sk), det
+    if kind == 'chain':
+        # nested argument scalings / left scalings / translations over a leaf with a finite constant
+        S = make_space(rng, arg)
+        node = gen_chain(rng, S, None)
+        x, d = vec(rng, S), vec(rng, S)
+        try:
+            ok, det = _grad_check(node.py, S, x, d)
+            key = 'chain-grad-%s' % node.desc[0]
+            if ok:
+                ok, det2 = _lip_check(node.py, S, rng, npairs=16)
+                det.update(det2)
+                if not ok:
+                    key = 'chain-lipschitz-%s' % node.desc[0]
+        except Exception as e:
+            ok, key, det = False, 'chain-raises-%s' % node.desc[0], {'raised': '%s: %s' % (type(e).__name__, str(e)[:200])}
+        det.update({'tree': node.desc, 'space': repr(S.sp)})
+        return ok, key, 'chain of scalings/translations on %s: gradient and grad_lipschitz vs observed ratios' % arg, det
+    if kind == 'reuse':
+        # ONE gradient operator object evaluated at several points must agree with fresh objects
+        S = make_space(rng, arg)
+        node = gen_nonlinear_comp(rng, S, None)
+        f = node.py
+        pts = [S.elem(vec(rng, S)) for _ in range(3)]
+        d = S.elem(vec(rng, S))
+        G = f.gradient
+        bad = []
+        with np.errstate(all='ignore'):
+            seq = [G(p) for p in pts] + [G(pts[0])]
+            for p, gp in zip(pts + [pts[0]], seq):
+                gi = float(gp.inner(d))
+                fresh = float(f.gradient(p).inner(d))
+                if not (math.isfinite(gi) and math.isfinite(fresh)):
+                    continue
+                ok_fd, err = _fd_ok(f, p, d, gi, tol=2e-5)
+                if abs(gi - fresh) > 1e-9 * (1 + abs(fresh)) or not ok_fd:
+                    bad.append({'reused': gi, 'fresh': fresh, 'fd_rel_err': err})
+        return (not bad), 'gradient-object-reuse-%s' % node.desc[0], \
+            'one f.gradient operator object evaluated at 3 points and again at the first (nonlinear inner operator)', \
+            {'bad': bad, 'tree': node.desc, 'space': repr(S.sp)}
     if kind == 'doc':
         # documented values of the derived functionals
         sk = arg
@@ -854,6 +1070,10 @@ def _probe_names(rng, tier):
     for sk in SPACE_KINDS:
         for _ in range(1 if quick else 4):
             names.append('doc:%s' % sk)
+    for sk in SPACE_KINDS:
+        for _ in range(2 if quick else 8):
+            names.append('chain:%s' % sk)
+            names.append('reuse:%s' % sk)
     names += ['qp-linear-flag'] * 2
     for sk in ('rn', 'rn1', 'rn_cw', 'rn_aw', 'discr', 'discr_big', 'discr2d'):
         for m in ('forward', 'central', 'backward'):
